@@ -428,7 +428,7 @@ def setIndexedVar (g : Grows) (r : Runner) (h : Heap) (prev : Var) (name : Bytes
   else
     match setIndexedElem g h list indexes (resolveIdx h list indexes k).toNat val with
     | none => none
-    | some x => setVar r x.1 name { prev with kind := .indexed, list := x.2.1, indexes := x.2.2 }
+    | some x => setVar r x.1 name { prev with set := true, kind := .indexed, list := x.2.1, indexes := x.2.2 }
 
 /-- The map a key is written to: `maps.Clone(prev.Map)`, made when nil. -/
 def cloneOrMake (ms : MapHeap Bytes Bytes) (m : Option Nat) : MapHeap Bytes Bytes × Nat :=
@@ -455,7 +455,7 @@ def setVarWithIndex (g : Grows) (r : Runner) (h : Heap) (prev : Var) (name : Byt
       else
         setVar r { h with maps := updMap (cloneOrMake h.maps prev.map).1 (cloneOrMake h.maps prev.map).2
                                     fun m => aset m (idxKey i) vr.str }
-          name { prev with map := some (cloneOrMake h.maps prev.map).2 }
+          name { prev with set := true, map := some (cloneOrMake h.maps prev.map).2 }
     | _ => setIndexedVar g r h prev name (idxInt i) vr.str Slice.nil Slice.nil
 
 /-- Subscript of `unset 'name[sub]'`. -/
